@@ -15,7 +15,9 @@ def c05_shapes(tier):
     e1 = lab.enum_e1()
     e3 = lab.enum_e3()
     if tier == "thorough":
-        return e1 + lab.enum_e2(2) + e3
+        # + every column context with three group ancestors (required earlier sibling where the context says 'later child')
+        deep = [f for f in lab.enum_e2(3, ("none", "req")) if lab.notation(f).count("{") >= 3]
+        return e1 + lab.enum_e2(2) + e3 + deep
     # quick: every context with a required earlier sibling, every 8th E1 shape, all composites
     return lab.enum_e2(2, ("none", "req")) + e1[::8] + e3
 
@@ -196,7 +198,7 @@ def register(PROPS):
         replay="TestReplayC05",
         rule="programs: quick = every column context with <= 2 group ancestors realised as a minimal struct with a required earlier sibling where the context says 'later child' (258) + every 8th "
              "shape of E1 + 47 composites + 3 hand-written programs whose feature is in the names (name-concatenation collision, one struct type used for three groups, untagged / mixed-case tags); thorough = E1 (all 1560 shapes with <= 2 children per struct and group depth <= 1) + E2 (3615 context structs: each ancestor r|o|p x first/later child x "
-             "earlier sibling in {required, optional, repeated leaf, optional group}) + composites; leaf types rotate through the 8 primitives. Per program: parquetgen twice (byte-identical output), "
+             "earlier sibling in {required, optional, repeated leaf, optional group}) + 1296 context structs with three group ancestors (required earlier sibling) + composites; leaf types rotate through the 8 primitives. Per program: parquetgen twice (byte-identical output), "
              "go build, then for up to 120 structurally distinct records (all of them when fewer; label value-space-complete) three workloads (one batch/large pages/uncompressed; two batches/page size 1/snappy; "
              "two batches/page size 3/gzip): read back == written, file valid under the C02 walker, column data == reference striping and reassembles. evaluations = records judged; every judged "
              "record set is non-trivial (distinct structural values); class histogram gives verdict per program.",
